@@ -675,6 +675,51 @@ theorem parse_then_write_no_panic (o : POpts) (v : JVal) (x : Obj) (h : parseTop
 
 end Geo
 
+namespace Geo
+
+/-! ### non-vacuity: the string-valued radius -/
+
+/-- `{"type":"Point","coordinates":[1,2]}` -/
+def docPt : JVal := .obj [jmem "type" (jstr "Point"), jmem "coordinates" (.arr [jnum 1 "1", jnum 2 "2"])]
+
+/-- `{"type":"Feature","geometry":{"type":"Point","coordinates":[1,2]},
+      "properties":{"type":"Circle","radius":"5"}}` -/
+def msStrRadius : List (String × String × JVal) :=
+  [jmem "type" (jstr "Feature"), jmem "geometry" docPt,
+   jmem "properties" (.obj [jmem "type" (jstr "Circle"), jmem "radius" (jstr "5")])]
+def docStrRadius : JVal := .obj msStrRadius
+
+theorem docStrRadius_unmodelled : parseTop {} docStrRadius = .error .unmodelled := by
+  have hp : parse {} 3 docPt = .ok (.point ⟨⟨1, 2⟩, true, "1", "2"⟩ none) := by
+    show parse {} (2+1) (.obj _) = _
+    rw [parse_succ_obj]
+    rfl
+  show parse {} (3+1) (.obj msStrRadius) = _
+  rw [parse_succ_obj]
+  have ht : (scanKeys msStrRadius).type = some (.str "\"Feature\"" "Feature") := rfl
+  rw [ht]
+  show featureCase {} (scanKeys msStrRadius) (parse {} 3) = _
+  unfold featureCase
+  have hg : (scanKeys msStrRadius).geometry = some docPt := rfl
+  rw [hg]
+  simp only [hp]
+  rfl
+
+example : HasStringRadius docStrRadius :=
+  parseTop_unmodelled_only_string_radius {} _ docStrRadius_unmodelled
+
+/-- Parse followed by AppendJSON on a concrete document -/
+example : (parseTop {} docPt).toOption.bind write =
+    some "{\"type\":\"Point\",\"coordinates\":[1,2]}" := by
+  have hp : parseTop {} docPt = .ok (.point ⟨⟨1, 2⟩, true, "1", "2"⟩ none) := by
+    show parse {} (2+1) (.obj _) = _
+    rw [parse_succ_obj]
+    rfl
+  rw [hp]
+  decide
+
+end Geo
+
 #print axioms Geo.parse_fuel_sufficient
 #print axioms Geo.parseTop_total
 #print axioms Geo.parseTop_unmodelled_only_string_radius
